@@ -20,8 +20,8 @@ i) flow accounting cannot kill a stream: in FlowMetrics no *unsigned* atomic cou
 f) run_worker_loop awaits on_store inline (no spawn) before the next recv.
 Not decided: the window between publication and release of the passive copy (cross-task atomicity), aggregates not being de-duplicated.
 """
-FLOOR = 16
-REQUIRED = ["C03.a", "C03.b1", "C03.b2", "C03.b3", "C03.c", "C03.d", "C03.e1", "C03.e2", "C03.f", "C03.g", "C03.h", "C03.i", "C03.j", "C03.k", "C03.l"]
+FLOOR = 17
+REQUIRED = ["C03.a", "C03.b1", "C03.b2", "C03.b3", "C03.c", "C03.d", "C03.e1", "C03.e2", "C03.f", "C03.g", "C03.h", "C03.i", "C03.j", "C03.k", "C03.l", "C03.m"]
 FLUSH_TASK = "engine::core::write::flush_worker::FlushWorker::run::{closure#0}::{closure#0}"
 
 
@@ -386,6 +386,45 @@ def run(ctx):
             raise AnchorMissing("retain sites in PassiveBufferSet: %d" % retains)
         return bad
     ctx.run("C03.h", "K4 EFFECT", "PassiveBufferSet", "a passive buffer leaves the set only when it is empty", h)
+
+    def m_(inst):
+        """The read snapshot of the passive buffers (PassiveBufferSet::non_empty) may leave a buffer out only on evidence that it is
+        empty. A buffer whose mutex is held is being scanned by another read (MemTableSource::run holds it for the whole scan) just
+        as well as being released by the flush worker: skipping it hides acknowledged rows from the second of two overlapping reads."""
+        bad = []
+        b = F.fn("PassiveBufferSet::non_empty")
+        pushes = [c for c in b.calls if not c.cleanup and c.nname.endswith("Vec::push")]
+        if not pushes:
+            raise AnchorMissing("out.push(..) in PassiveBufferSet::non_empty")
+        hdrs = [h for h in for_headers(b) if any(b.can_reach(h.bb, p_.bb) and b.can_reach(p_.bb, h.bb) for p_ in pushes)]
+        if len(hdrs) != 1:
+            raise AnchorMissing("the loop over the buffers in non_empty (%d)" % len(hdrs))
+        h = hdrs[0]
+
+        def is_empty_edge(op, A, B_, truth):
+            ln = any(l[0] == "call" and re.search(r"MemTable::len$|MemTable::is_empty$", norm_path(l[1])) for l in A)
+            zero = any(l[0] == "const" and re.match(r"^0_", str(l[1])) for l in B_)
+            return ln and zero and ((op == "Gt" and not truth) or (op == "Eq" and truth) or (op == "Ne" and not truth) or (op == "Le" and truth))
+        allowed = []
+        for i_ in sorted(b.live_blocks()):
+            if b.blocks[i_]["t"]["t"] != "switch":
+                continue
+            si = b.switch_info(i_)
+            if not si or si["kind"] != "bool":
+                continue
+            d = si.get("def")
+            if d and d.get("r") == "bin":
+                for truth, tgt in ((True, si["true"]), (False, si["false"])):
+                    if tgt is not None and is_empty_edge(d["op"], b.origins(d["a"]), b.origins(d["b"]), truth):
+                        allowed.append((i_, tgt))
+            elif any(l[0] == "call" and norm_path(l[1]).endswith("MemTable::is_empty") for l in b.origins(si["op"])) and si["true"] is not None:
+                allowed.append((i_, si["true"]))
+        inst.sites = [sp(b, h.bb)] + [sp(b, p_.bb) for p_ in pushes] + ["`buffer is empty` edges: %d" % len(allowed)]
+        w = skipped_iteration(b, h, [p_.bb for p_ in pushes], allowed_edges=allowed)
+        if w:
+            bad.append(("snapshot-skips-non-empty-buffer", "PassiveBufferSet::non_empty can leave a buffer out of the read snapshot without having seen that it is empty (e.g. because its mutex is held by another reader): the rows of a rotation that is not yet on disk are invisible to that read", w))
+        return bad
+    ctx.run("C03.m", "K9 LOOP", "PassiveBufferSet::non_empty", "the read snapshot leaves a passive buffer out only when it is empty", m_)
 
 
     def i_(inst):
